@@ -13,7 +13,262 @@ RO_ONE = ["md5", "hashes", "pickle", "save", "manifest", "sigcopy", "sigcopym", 
 MUTATORS = ["add", "addab", "addmany", "rm", "clear", "merge", "setab", "settrack"]
 
 
+NAMES = ["a", "b", "c", "d", "e", "-"]
+FNAMES = ["fa", "fb", "-"]
+SIG_MUT = ["sname", "sfile", "ssetmh", "saddseq", "saddprot"]
+SIG_COPY = ["stomut", "stofrozen", "scopy", "spickle", "supdflat", "supdname", "sgatherinit"]
+SIG_RO = ["md5", "eq", "sim", "save", "pickle", "copies", "mhmut", "compare"]
+VIEW_RO_Q = ["search", "searchc", "prefetch", "best", "gather", "gatheri"]
+VIEW_RO_0 = ["sigs", "locs", "manifest", "picklist"]
+
+
+def _seq(rng):
+    n = rng.randint(21, 30)
+    s = [rng.choice("ACGT") for _ in range(n)]
+    r = rng.random()
+    if r < 0.12:
+        s[rng.randrange(n)] = "X"
+    elif r < 0.2:
+        s[rng.randrange(n)] = "N"
+    elif r < 0.25:
+        s = s[:rng.randint(1, 20)]
+    return "".join(s)
+
+
+def _kws(rng, scaled):
+    keys = rng.sample(["ksize", "moltype", "scaled", "num", "abund", "containment"], rng.choice([1, 1, 1, 2, 2, 3]))
+    out = []
+    for k in keys:
+        if k == "ksize":
+            v = rng.choice(["21", "21", "21", "31", "N"])
+        elif k == "moltype":
+            v = rng.choice(["0", "0", "0", "1", "N"])
+        elif k == "scaled":
+            v = rng.choice([str(scaled), str(scaled), str(scaled * 2), "0", "N"])
+        elif k == "num":
+            v = rng.choice(["0", "0", "500", "N"])
+        else:
+            v = rng.choice(["0", "1", "1", "N"])
+        out.append(f"{k}={v}")
+    return " ".join(out)
+
+
+def gen_obj_case(rng, flavour):
+    """flavours 'sigs' (signature objects), 'views' (copying collection views), 'inplace' (SBT / LCA_Database next
+    to the copying kinds): histories over the three object layers"""
+    lines = []
+    scaled = rng.choice([1, 1, 1, 2, 2, 10])
+    M = (2 ** 64 - 1) if scaled == 1 else int(2.0 ** 64 / scaled)
+    pool = sorted({rng.randint(0, M) for _ in range(rng.randint(4, 10))} | {0, M})
+    hv = lambda: rng.choice(pool)
+    nh = rng.randint(2, 4)
+    for h in range(nh):
+        tr = rng.random() < 0.5
+        lines.append(f"new {h} 0 {scaled} {int(tr)}")
+        k = rng.choice([0, 1, 2, 3, 4, 5, 6, 6])
+        if k:
+            lines.append(f"addmany {h} " + " ".join(str(hv()) for _ in range(k)))
+    mhs = list(range(nh))
+    nmh = nh
+    sigs, views = [], []
+    ck, nmof = {}, {}       # best-effort bookkeeping: which sketch a signature's content came from, and its name
+    uniq = [0]
+
+    def fresh_key():
+        uniq[0] += 1
+        return ("u", uniq[0])
+
+    def track(line):
+        w = line.split()
+        o = w[0]
+        if o == "snew":
+            ck[int(w[1])], nmof[int(w[1])] = ("mh", w[2]), w[3]
+        elif o in ("stomut", "stofrozen", "scopy", "spickle", "supdflat", "sgatherinit"):
+            ck[int(w[1])], nmof[int(w[1])] = ck.get(int(w[2]), fresh_key()), nmof.get(int(w[2]), "-")
+        elif o == "supdname":
+            ck[int(w[1])], nmof[int(w[1])] = ck.get(int(w[2]), fresh_key()), w[3]
+        elif o == "ssetmh":
+            ck[int(w[1])] = ("mh", w[2])
+        elif o in ("saddseq",):
+            ck[int(w[1])] = fresh_key()
+        elif o == "sname":
+            nmof[int(w[1])] = w[2]
+        elif o == "vget":
+            ck[int(w[1])], nmof[int(w[1])] = fresh_key(), "-"
+        elif o in ("add", "addmany", "clear", "rm", "merge"):
+            pass
+        return line
+    ns = nv = 0
+    names = NAMES[:]
+    rng.shuffle(names)
+    for h in range(rng.randint(2, 4)):
+        nm = names[h % len(names)] if flavour != "sigs" or rng.random() < 0.8 else rng.choice(NAMES)
+        lines.append(track(f"snew {ns} {rng.choice(mhs)} {nm} {rng.choice(FNAMES)}"))
+        sigs.append(ns)
+        ns += 1
+        if rng.random() < 0.4:
+            if rng.random() < 0.5:
+                lines.append(f"sintofrozen {ns - 1}")
+            else:
+                lines.append(track(f"stofrozen {ns} {ns - 1}"))
+                sigs.append(ns)
+                ns += 1
+    S = lambda: rng.choice(sigs)
+
+    def some_sigs(lo, hi, distinct=False, named=False):
+        k = rng.randint(lo, min(hi, len(sigs)))
+        if not distinct and not named:
+            return " ".join(map(str, rng.sample(sigs, k)))
+        # collections written to disk want pairwise different hash lists, LCA databases different non-empty names
+        # (anything else is answered `bad-op` by both sides): choose accordingly, most of the time
+        out, keys, names = [], set(), set()
+        for x in rng.sample(sigs, len(sigs)):
+            if len(out) >= max(k, 1):
+                break
+            if rng.random() < 0.9:
+                if distinct and ck.get(x) in keys:
+                    continue
+                if named and (nmof.get(x, "-") == "-" or nmof.get(x) in names):
+                    continue
+            out.append(x)
+            keys.add(ck.get(x))
+            names.add(nmof.get(x, "-"))
+        return " ".join(map(str, out or [rng.choice(sigs)]))
+
+    def sig_op():
+        nonlocal ns, nmh
+        r = rng.random()
+        if r < 0.34:
+            op = rng.choice(SIG_MUT + ["sname", "ssetmh", "saddseq"])
+            if op == "sname":
+                return f"sname {S()} {rng.choice(NAMES)}"
+            if op == "sfile":
+                return f"sfile {S()} {rng.choice(FNAMES)}"
+            if op == "ssetmh":
+                return f"ssetmh {S()} {rng.choice(mhs)}"
+            if op == "saddseq":
+                return f"saddseq {S()} {rng.randint(0, 1)} {_seq(rng)}"
+            return f"saddprot {S()} {_seq(rng)}"
+        if r < 0.62:
+            op = rng.choice(SIG_COPY)
+            ns += 1
+            sigs.append(ns - 1)
+            if op == "supdname":
+                return f"supdname {ns - 1} {rng.choice(sigs[:-1])} {rng.choice(NAMES)}"
+            return f"{op} {ns - 1} {rng.choice(sigs[:-1])}"
+        if r < 0.68:
+            return f"sintofrozen {S()}"
+        if r < 0.78:
+            nmh += 1
+            mhs.append(nmh - 1)
+            if rng.random() < 0.6:
+                return f"smh {nmh - 1} {S()}"
+            return f"scg {nmh - 1} {S()} {some_sigs(0, 3)}".rstrip()
+        if r < 0.9:
+            return f"sro {rng.choice(SIG_RO)} {S()}" + (f" {S()}" if rng.random() < 0.7 else "")
+        # the sketch layer underneath: mutate (or try to) a sketch a signature was built from / handed out
+        h = rng.choice(mhs)
+        op = rng.choice(["add", "addmany", "clear", "rm", "tomut", "merge"])
+        if op == "add":
+            return f"add {h} {hv()}"
+        if op == "addmany":
+            return f"addmany {h} {hv()} {hv()}"
+        if op == "clear":
+            return f"clear {h}"
+        if op == "rm":
+            return f"rm {h} {hv()}"
+        if op == "merge":
+            return f"merge {h} {rng.choice(mhs)}"
+        nmh += 1
+        mhs.append(nmh - 1)
+        return f"tomut {nmh - 1} {h}"
+
+    def new_view():
+        nonlocal nv
+        kinds = ["vlinear", "vlinear", "vlazy", "vlazy", "vzip0", "vzip1", "vmulti", "vmulti", "vstandalone"]
+        if flavour == "inplace":
+            kinds = ["vsbt", "vsbt", "vlca", "vlca", "vlinear", "vzip1"]
+        k = rng.choice(kinds)
+        lin = [v for v, kk in views if kk == "vlinear"]
+        if k in ("vlazy", "vmulti") and not lin:
+            k = "vlinear"
+        nv += 1
+        views.append((nv - 1, k))
+        if k == "vlazy":
+            return f"vlazy {nv - 1} {rng.choice(lin)}"
+        if k == "vmulti":
+            return f"vmulti {nv - 1} " + " ".join(map(str, rng.sample(lin, rng.randint(1, min(2, len(lin))))))
+        if k in ("vzip0", "vzip1"):
+            return f"vzip {nv - 1} {k[-1]} {some_sigs(1, 4, distinct=True)}"
+        if k == "vstandalone":
+            return f"vstandalone {nv - 1} {some_sigs(1, 4, distinct=True)}"
+        if k == "vlca":
+            return f"vlca {nv - 1} {some_sigs(1, 4, named=True)}"
+        return f"{k} {nv - 1} {some_sigs(0 if k == 'vlinear' else 1, 4)}".rstrip()
+
+    def view_op():
+        nonlocal nv, ns
+        if not views or (len(views) < 4 and rng.random() < 0.3):
+            return new_view()
+        v, k = rng.choice(views)
+        r = rng.random()
+        if r < 0.38:
+            nv += 1
+            views.append((nv - 1, k if k not in ("vzip0", "vzip1") else k))
+            if k in ("vsbt", "vlca") and rng.random() < 0.6:
+                return f"vselpick {nv - 1} {v} " + " ".join(rng.sample([n for n in NAMES if n != "-"], rng.randint(0, 3)))
+            return f"vsel {nv - 1} {v} {_kws(rng, scaled)}"
+        if r < 0.5:
+            return f"vinsert {v} {S()}"
+        if r < 0.62:
+            ns += 1
+            sigs.append(ns - 1)
+            cands = [x for x, kk in views if kk not in ("vsbt", "vlca")] or [v]
+            return f"vget {ns - 1} {rng.choice(cands)} {rng.choice([0, 0, 0, 0, 1, 1, 2])}"
+        if r < 0.85:
+            if rng.random() < 0.45:
+                return f"vro {rng.choice(VIEW_RO_0)} {v}"
+            return f"vro {rng.choice(VIEW_RO_Q)} {v} {S()}"
+        return sig_op()
+
+    n_ops = rng.randint(6, 28)
+    if flavour != "sigs":
+        for _ in range(rng.randint(1, 3)):
+            lines.append(new_view())
+    for _ in range(n_ops):
+        lines.append(track(sig_op() if flavour == "sigs" else view_op()))
+    if flavour == "sigs":
+        # the pickle-protocol entry point called on an existing object: here only on signatures the generator knows
+        # to be mutable (created by snew / stomut / spickle / sgatherinit and never frozen since).  On a FROZEN
+        # target the call destroys the object (finding C15.1): that case lives in corpus/C15/ and is replayed by every run.
+        mutable = set()
+        for ln in lines:
+            w = ln.split()
+            if w[0] in ("snew", "stomut", "spickle", "sgatherinit"):
+                mutable.add(int(w[1]))
+            elif w[0] in ("sintofrozen",):
+                mutable.discard(int(w[1]))
+            elif w[0] in ("stofrozen", "scopy", "supdflat", "supdname", "vget"):
+                mutable.discard(int(w[1]))
+        out = []
+        for ln in lines:
+            out.append(ln)
+        if mutable and rng.random() < 0.5:
+            # insert after the last line that mentions the chosen handle as a result, keeping it mutable: simplest is at the end
+            tgt = rng.choice(sorted(mutable))
+            out.append(f"ssetstate {tgt} {rng.choice(mhs)} {rng.choice(NAMES)} {rng.choice(FNAMES)}")
+            out.append(f"sro md5 {tgt}")
+        lines = out
+    return lines
+
+
 def gen_case(rng, flavour):
+    if flavour in ("sigs", "views", "inplace"):
+        return gen_obj_case(rng, flavour)
+    return gen_mh_case(rng, flavour)
+
+
+def gen_mh_case(rng, flavour):
     """flavour 'frozen': many mutator attempts on frozen objects; 'readonly': many read-only calls
     between digests; 'alias': copies / flatten / downsample chains followed by mutation of the copy"""
     lines = []
@@ -75,73 +330,168 @@ def gen_case(rng, flavour):
     return lines
 
 
+MH_RESULT = {"tomut", "tofrozen", "copy", "flat", "down", "sigmh", "plus", "inter", "new", "smh", "scg"}
+SIG_RESULT = {"snew", "stomut", "stofrozen", "scopy", "spickle", "supdflat", "supdname", "sgatherinit", "vget"}
+VIEW_RESULT = {"vlinear", "vlazy", "vzip", "vmulti", "vstandalone", "vsbt", "vlca", "vsel", "vselpick"}
+MH_RECV = {"add", "addab", "addmany", "rm", "clear", "merge", "setab", "settrack", "intofrozen"}
+SIG_RECV = {"ssetmh", "sname", "sfile", "saddseq", "saddprot", "ssetstate", "sintofrozen"}
+SIG_FRESH = {"stomut", "spickle", "supdflat", "supdname", "sgatherinit"}
+INPLACE = {"sbt", "lca"}
+DISK = {"zipnm", "zipm", "standalone"}
+
+
 def parse(obs):
-    """'ok | 0@0=f:num:mh:mins:ab 1@1=...' -> (res, {handle: (cls, frozen, content)})"""
+    """'ok | 0@0=f:num:mh:mins:ab s1@1=f:name:file:... v2@2=kind;own;[sigs]'
+    -> (res, {'m': {h: (cls, frozen, cell)}, 's': {h: (cls, frozen, cell)}, 'v': {h: (cls, kind, text)}})"""
     if " | " not in obs and not obs.endswith(" |"):
         return obs, None
     res, _, rest = obs.partition(" | ")
-    tab = {}
+    tab = {"m": {}, "s": {}, "v": {}}
     for item in rest.split():
         hc, _, cell = item.partition("=")
         h, _, cls = hc.partition("@")
-        tab[int(h)] = (cls, cell[0] == "1", cell)
+        if h.startswith("s"):
+            tab["s"][int(h[1:])] = (cls, cell[:1] == "1", cell)
+        elif h.startswith("v"):
+            tab["v"][int(h[1:])] = (cls, cell.split(";")[0], cell)
+        else:
+            tab["m"][int(h)] = (cls, cell[:1] == "1", cell)
     return res.strip(), tab
 
 
 def oracle(case, impl):
     """C15 from the statement, on the implementation's own observations (no model involved):
-    * a read-only call changes nothing and repeats (adapter reports RepeatDiffers / InputModified);
-    * an object that is frozen never changes content again and refuses every mutator;
+    * a read-only call (`ro`, `sro`, `vro`) changes nothing and repeats (adapter: RepeatDiffers / InputModified);
+    * an object that is frozen (sketch or signature) never changes content again and refuses every mutator;
     * an op changes at most the object it was invoked on (objects identical to it by identity included):
-      in particular a copy obtained from to_mutable()/to_frozen()/copy()/+/&/downsample of a MUTABLE
-      object is a different object, and mutating one never shows in the other."""
+      a copy obtained from to_mutable()/pickle/update()/GatherDatabases of ANY signature, or from
+      copy()/to_frozen() of a MUTABLE one, is a different object; `sig.minhash` is a new frozen sketch;
+    * a collection view changes only through insert on it (or on the index a lazy view wraps), through select on
+      one of the documented IN-PLACE kinds (SBT, LCA_Database), or because a signature object it REFERS to was
+      explicitly mutated; select on every other kind returns a new object and leaves its receiver alone;
+    * what a loader hands out (signatures read from a zip / a standalone manifest) is frozen."""
     bad = []
-    prev = {}
+    prev = None
     for idx, (op, obs) in enumerate(zip(case, impl)):
         w = op.split()
         res, tab = parse(obs)
         if tab is None:
             continue
         o = w[0]
-        if o == "ro":
+        if prev is None:
+            prev = {"m": {}, "s": {}, "v": {}}
+        if o in ("ro", "sro", "vro"):
             if res.startswith("err RepeatDiffers"):
-                bad.append((idx, "C15:repeat-differs:" + w[1], f"`{op}`: repeating the same read-only call gave a different result"))
+                bad.append((idx, f"C15:repeat-differs:{o}:" + w[1] if o != "ro" else "C15:repeat-differs:" + w[1],
+                            f"`{op}`: repeating the same read-only call gave a different result"))
             elif res.startswith("err InputModified"):
-                bad.append((idx, "C15:input-modified:" + w[1], f"`{op}` modified a signature passed to it"))
+                bad.append((idx, f"C15:input-modified:{o}:" + w[1] if o != "ro" else "C15:input-modified:" + w[1],
+                            f"`{op}` modified a signature passed to it"))
             elif res.startswith("err"):
                 bad.append((idx, "C15:readonly-raises:" + w[1] + ":" + res[4:], f"`{op}` raised {res[4:]} (second invocation or internal state damage)"))
+        rebound = None
+        if o in MH_RESULT:
+            rebound = ("m", int(w[1]))
+        elif o in SIG_RESULT:
+            rebound = ("s", int(w[1]))
+        elif o in VIEW_RESULT:
+            rebound = ("v", int(w[1]))
         recv = None
-        if o in ("add", "addab", "addmany", "rm", "clear", "merge", "setab", "settrack", "intofrozen"):
-            recv = int(w[1])
-        for h, (cls, frozen, cell) in tab.items():
-            if h not in prev:
-                continue
-            pcls, pfrozen, pcell = prev[h]
-            rebound = o in ("tomut", "tofrozen", "copy", "flat", "down", "sigmh", "plus", "inter", "new") and int(w[1]) == h
-            if rebound:
-                continue
-            if cell != pcell:
-                same_obj = recv is not None and recv in prev and prev[recv][0] == pcls
+        if o in MH_RECV:
+            recv = ("m", int(w[1]))
+        elif o in SIG_RECV:
+            recv = ("s", int(w[1]))
+        elif o == "vinsert":
+            recv = ("v", int(w[1]))
+        elif o in ("vsel", "vselpick") and len(w) > 2 and w[2].isdigit():
+            recv = ("v", int(w[2]))
+        rcls = prev[recv[0]].get(recv[1], (None,))[0] if recv else None
+        # --- sketches and signatures: frozen objects are constant, only the receiver may change
+        for layer, nm in (("m", "object"), ("s", "sig")):
+            for h, (cls, frozen, cell) in tab[layer].items():
+                if h not in prev[layer] or rebound == (layer, h):
+                    continue
+                pcls, pfrozen, pcell = prev[layer][h]
+                if cell == pcell:
+                    continue
+                same_obj = recv is not None and recv[0] == layer and rcls == pcls
                 if pfrozen:
-                    bad.append((idx, "C15:frozen-object-changed:" + o,
-                                f"`{op}` changed frozen object {h}: {pcell} -> {cell}"))
+                    bad.append((idx, f"C15:frozen-{nm}-changed:" + o,
+                                f"`{op}` changed frozen {nm} {h}: {pcell} -> {cell}"))
                 elif not same_obj:
-                    bad.append((idx, "C15:bystander-changed:" + o,
-                                f"`{op}` changed object {h}, which is not the object it was invoked on: {pcell} -> {cell}"))
-        # a mutator invoked on a frozen object must be refused
-        if recv is not None and recv in prev and prev[recv][1] and o != "intofrozen":
+                    tag = "bystander-changed" if layer == "m" else "sig-bystander-changed"
+                    bad.append((idx, f"C15:{tag}:" + o,
+                                f"`{op}` changed {nm} {h}, which is not the object it was invoked on: {pcell} -> {cell}"))
+        # --- a mutator invoked on a frozen object must be refused
+        if recv is not None and recv[0] in ("m", "s") and recv[1] in prev[recv[0]] and prev[recv[0]][recv[1]][1] \
+                and o not in ("intofrozen", "sintofrozen"):
             if not res.startswith("err"):
-                changed = tab.get(recv, (None, None, None))[2] != prev[recv][2]
+                changed = tab[recv[0]].get(recv[1], (None, None, None))[2] != prev[recv[0]][recv[1]][2]
                 if changed or o != "settrack":
-                    bad.append((idx, "C15:frozen-mutator-accepted:" + o, f"`{op}` on a frozen object was not refused"))
-        # fresh-copy ops on a mutable source must not alias it
+                    tag = "frozen-mutator-accepted" if recv[0] == "m" else "frozen-sig-mutator-accepted"
+                    bad.append((idx, f"C15:{tag}:" + o, f"`{op}` on a frozen object was not refused"))
+        # --- fresh-copy ops on a mutable source must not alias it
         if o in ("tomut", "copy", "tofrozen", "plus", "inter", "down", "sigmh") and res == "ok":
             r, src = int(w[1]), int(w[2])
-            if r in tab and src in tab and r != src and tab[r][0] == tab[src][0] and not tab[src][1]:
+            T = tab["m"]
+            if r in T and src in T and r != src and T[r][0] == T[src][0] and not T[src][1]:
                 bad.append((idx, "C15:copy-aliases-mutable:" + o, f"`{op}` returned the very object it was given although it is mutable"))
+        if o in (SIG_FRESH | {"scopy", "stofrozen"}) and res == "ok":
+            r, src = int(w[1]), int(w[2])
+            S, P = tab["s"], prev["s"]
+            if r in S and src in P and r != src and S[r][0] == P[src][0] and (o in SIG_FRESH or not P[src][1]):
+                bad.append((idx, "C15:sig-copy-aliases:" + o,
+                            f"`{op}` returned the very signature it was given although a new object is promised"))
+        if o in ("smh", "scg") and res == "ok":
+            r = int(w[1])
+            T = tab["m"]
+            if r in T:
+                if any(h != r and T[h][0] == T[r][0] for h in T):
+                    bad.append((idx, "C15:sig-minhash-aliases:" + o, f"`{op}` handed out a sketch object that already existed"))
+                if not T[r][1]:
+                    bad.append((idx, "C15:sig-minhash-not-frozen:" + o, f"`{op}` handed out a mutable sketch"))
+        # --- views
+        for h, (cls, kind, text) in tab["v"].items():
+            if h not in prev["v"] or rebound == ("v", h):
+                continue
+            pcls, pkind, ptext = prev["v"][h]
+            if text == ptext:
+                continue
+            is_recv = recv is not None and recv[0] == "v" and rcls == pcls
+            wraps_recv = recv is not None and recv[0] == "v" and f";db=v{rcls};" in ";" + ptext
+            if o == "vinsert" and (is_recv or wraps_recv):
+                continue
+            if o in ("vsel", "vselpick") and is_recv and pkind in INPLACE:
+                continue            # documented in-place selection
+            if o in SIG_RECV:
+                continue            # a signature object the view refers to was explicitly mutated
+            if o in ("vsel", "vselpick") and is_recv:
+                bad.append((idx, "C15:select-changed-receiver:" + pkind,
+                            f"`{op}`: select() on a {pkind} view changed the view it was called on: {ptext[:160]} -> {text[:160]}"))
+            else:
+                bad.append((idx, "C15:view-changed:" + o,
+                            f"`{op}` changed collection view {h} ({pkind}), which it was not invoked on: {ptext[:160]} -> {text[:160]}"))
+        if o in ("vsel", "vselpick") and res == "ok" and recv is not None and recv[1] in prev["v"]:
+            r = int(w[1])
+            pkind = prev["v"][recv[1]][1]
+            if r in tab["v"]:
+                aliases_old = any(tab["v"][r][0] == pc for hh, (pc, _, _) in prev["v"].items() if hh != r)
+                if pkind in INPLACE and tab["v"][r][0] != tab["v"].get(recv[1], (None,))[0]:
+                    bad.append((idx, "C15:inplace-select-returned-new-object:" + pkind,
+                                f"`{op}`: {pkind}.select() is documented to narrow and return the object itself"))
+                if pkind not in INPLACE and aliases_old:
+                    bad.append((idx, "C15:select-returned-existing-object:" + pkind,
+                                f"`{op}`: select() on a {pkind} view returned an object that already existed"))
+        if o == "vget" and res == "ok" and len(w) > 2 and w[2].isdigit() and int(w[2]) in prev["v"]:
+            pkind = prev["v"][int(w[2])][1]
+            r = int(w[1])
+            if pkind in DISK and r in tab["s"] and not tab["s"][r][1]:
+                bad.append((idx, "C15:loader-handed-out-mutable:" + pkind,
+                            f"`{op}`: a signature read from a {pkind} collection is not frozen"))
         prev = tab
     return bad
 
 
 def nontrivial(case, impl):
-    return sum(1 for o in impl if o.startswith("ok |")) >= 4 and any(c.startswith(("ro ", "tofrozen", "sigmh")) for c in case)
+    return sum(1 for o in impl if o.startswith("ok |")) >= 4 and \
+        any(c.startswith(("ro ", "tofrozen", "sigmh", "s", "v")) for c in case)
